@@ -205,6 +205,13 @@ inline Result exec_c19(const Plan& plan)
         return res;
     }
     fp.add((u64)full.events.size());
+    for(auto& ev : full.events)
+    {
+        fp.add((u64)ev.kind);
+        fp.add((u64)ev.tag);
+        fp.add(ev.bits);
+        fp.add((u64)ev.addr_off);
+    }
     // resolve value-dependent expectations through the named accessors
     Res rr;
     std::vector<u64> fetched(vm.ev.size(), 0);
